@@ -1,8 +1,13 @@
-(* Prop_C02.v — C02 (partial): mutual exclusion and per-lock data continuity.
+(* Prop_C02.v — C02: mutual exclusion and per-lock data continuity.
+   For EVERY schedule of the interleaved model (C02_every_schedule_data_under_hold, C02_every_schedule_exclusive): a
+   thread about to read user data through a guard / closure position holds that position's lock, a thread about to write
+   holds it exclusively, and no other thread is then at an access of the same lock's data.  In the model the payload of
+   a lock is changed only by such writes, so every section sees what the latest exclusive section left.
    The exclusion between holders is the raw lock's contract (modelled by raw_apply, implemented by the
    harness's auditing lock; parking_lot / spin are not verified).  What is proved is that happylock hands
    out data access only to the holder and routes position i of every guard / closure argument to member i. *)
-From HL Require Import Base Model Shape Algo Api OpsLemmas Lemmas ShapeLemmas ApiLemmas QuietLemmas Pf_Calls Pf_Hist Pf_Hist2.
+From HL Require Import Base Model Shape Algo Api Conc OpsLemmas Lemmas ShapeLemmas ApiLemmas QuietLemmas Pf_Calls Pf_Hist Pf_Hist2.
+From HL Require Wp WpMain.
 
 (* the guard structure covers exactly the declared leaves, in declared order ... *)
 Theorem C02_guard_covers : forall s, gleaves (gitems s) = kleaves s.
@@ -73,8 +78,41 @@ Theorem C02_guards_exclusive :
     shared k1 m1 = true /\ shared k2 m2 = true.
 Proof. intros sc H. apply guards_exclusive. now apply wf_histb_ok. Qed.
 
+
+(* ---------------------------------------------------------------- every schedule of the interleaved model *)
+Theorem C02_every_schedule_data_under_hold :
+  forall b sched t pos l, WpMain.wfB b = true ->
+  let sc := bs_sc b in
+  let s := fst (run_sched (bs_wp b) (sc_env sc) (sc_nlocks sc) (binit b) sched) in
+  (parked (get_thr (b_thr s) t) = Some (ORead pos l) -> holds_b (b_w s) t l = true) /\
+  (parked (get_thr (b_thr s) t) = Some (OWrite pos l) -> writer_is (w_raw (b_w s) l) t = true).
+Proof. exact WpMain.every_schedule_data_under_hold. Qed.
+
+Theorem C02_every_schedule_exclusive :
+  forall b sched t u pos pos' l, WpMain.wfB b = true ->
+  let sc := bs_sc b in
+  let s := fst (run_sched (bs_wp b) (sc_env sc) (sc_nlocks sc) (binit b) sched) in
+  t <> u ->
+  parked (get_thr (b_thr s) t) = Some (OWrite pos l) ->
+  parked (get_thr (b_thr s) u) <> Some (OWrite pos' l) /\ parked (get_thr (b_thr s) u) <> Some (ORead pos' l).
+Proof. exact WpMain.every_schedule_exclusive. Qed.
+
+(* non-vacuity: a schedule that parks thread 0 at a write inside its exclusive closure while thread 1 waits *)
+Definition ex02 : bscen :=
+  mkbs (mks 2 0 [0; 1] [] [SBoxed (SSeq [SLeaf KRw 0; SLeaf KMutex 1]); SRetry (SSeq [SLeaf KMutex 1; SLeaf KRw 0])] [] [] [] 20 [])
+       false
+       [[AKeyGet; AAcquire 0 Ex (FScoped true [CWrite 0; CRead 1])];
+        [AKeyGet; AAcquire 1 Sh FGuard; AGuardRead 1; AGuardDrop]].
+Example C02_example :
+  WpMain.wfB ex02 = true /\
+  let s := fst (run_sched false (sc_env (bs_sc ex02)) 2 (binit ex02) [0; 1; 0; 0]) in
+  parked (get_thr (b_thr s) 0) = Some (OWrite 0 0) /\ waits_b false s 1 = Some 1.
+Proof. vm_compute. auto. Qed.
+
 Print Assumptions C02_guard_covers.
 Print Assumptions C02_acquired_is_covered.
 Print Assumptions C02_position_routes.
 Print Assumptions C02_closure_under_hold.
 Print Assumptions C02_guards_exclusive.
+Print Assumptions C02_every_schedule_data_under_hold.
+Print Assumptions C02_every_schedule_exclusive.
